@@ -93,7 +93,10 @@ def asked_date(body):
 
 
 def prof_date(data):
-    m = re.search(rb"<DTPROFUP>([^<\r\n]+)", data or b"")
+    """The date of the PROFILE in an answer / a cache file: <DTPROFUP> inside <PROFRS> (the sign-on response may carry one, too)."""
+    data = data or b""
+    i = data.find(b"<PROFRS>")
+    m = re.search(rb"<DTPROFUP>([^<\r\n]+)", data[i:] if i >= 0 else data)
     return R.parse_datetime(m.group(1).decode()) if m else None
 
 
